@@ -41,6 +41,26 @@ func c11paths() []c11path {
 	rec(nil)
 	causes1 := []string{"none", "disconnect", "drop", "silence", "second-connect", "displaced-same-node"}
 	causes2 := append(append([]string{}, causes1...), "displaced-other-node", "leave")
+	// keep-alive values at the edges of the 16-bit field: only short absolute idles (1 s, 3.5 s), pings and subscriptions
+	for _, k := range []int32{32767, 32768, 32769, 65535} {
+		for _, s := range scripts {
+			if len(s) > 2 {
+				continue
+			}
+			ok := true
+			for _, e := range s {
+				if e == "idle-0.9K" || e == "idle-1.4K" {
+					ok = false
+				}
+			}
+			if !ok {
+				continue
+			}
+			for _, c := range []string{"none", "disconnect", "drop"} {
+				out = append(out, c11path{1, k, s, c, "auto"})
+			}
+		}
+	}
 	for _, k := range []int32{2, 10} {
 		for _, s := range scripts {
 			// consecutive idle events add up to one silence; only silences <= 1.4 x keep-alive must be survived
@@ -264,8 +284,12 @@ func TestC11Lifecycle(t *testing.T) {
 				release()
 				if !ended {
 					// a session that must stay alive keeps pinging within its keep-alive during the horizon
-					for spent := time.Duration(0); spent < 6*time.Second; spent += K * 9 / 10 {
-						w.Idle(K * 9 / 10)
+					quantum := K * 9 / 10
+					if quantum > 2*time.Second {
+						quantum = 2 * time.Second
+					}
+					for spent := time.Duration(0); spent < 6*time.Second; spent += quantum {
+						w.Idle(quantum)
 						c.Ping()
 						w.Step()
 					}
